@@ -16,9 +16,9 @@ C = {
  "C03": ("exploration", "stateful PBT with a recording ledger: write-log silence between commits, fresh-storage reload at every commit and crash point",
          "Histories over 1-3 roots (two owners plus a temporary-address container) with generated commit / crash markers: after every step the ledger's write log must not have grown since the last commit; at each commit a brand-new storage over the registers must reproduce the model and the register set must equal the slabs reachable from the live roots (handed-back containers are kept and later disposed of, some by identifier without loading); at crash points a new storage over a copy of the ledger must equal the model snapshot of the last commit; no zero-address register may ever be written."),
  "C04": ("exploration", "metamorphic PBT: same history under 1/N/64 workers, repeated, order-relaxed commit, and a second OS process (other toolchain in thorough); byte-identical registers and ordered write log",
-         "Each generated multi-owner history is run five times in-process (worker counts, repetition for pool/map-order effects, order-relaxed commit) and its register digest is compared with a second OS process (GOMAXPROCS=1; go1.26.8 build in the thorough tier) that regenerates the same case; the deterministic commit's write log must be strictly ascending in (owner, index) and identical across runs, the relaxed commit must write the same set."),
+         "Each generated multi-owner history is run five times in-process (worker counts, repetition for pool/map-order effects, order-relaxed commit) and its register digest is compared with a second OS process (GOMAXPROCS=1; go1.26.8 build in the thorough tier) that regenerates the same case; the deterministic commit's write log must be strictly ascending in (owner, index) and identical across runs, the relaxed commit must write the same set; an epilogue commit that fails in an encoder must leave the same registers under every worker count."),
  "C05": ("exploration", "stateful PBT with an independent structural oracle over raw register bytes plus the in-repo verifiers",
-         "After every step every reachable slab is encoded and parsed by the harness's own register parser: size band (<=1.5x, non-root >= half), per-element limits, >=2 elements in an over-full slab, >=2 children in an index root, parent header copies (size, count, first digest) equal the children's own data, sibling links equal index order, digests sorted and unique; VerifyArray/VerifyMap run in addition."),
+         "After every step every reachable slab is encoded and parsed by the harness's own register parser: size band (<=1.5x, non-root >= half), per-element limits, >=2 elements in an over-full slab, >=2 children in an index root, parent header copies (size, count, first digest) equal the children's own data, sibling links equal index order, digests sorted and unique; VerifyArray/VerifyMap run in addition. Bulk operations (bursts of single removals that take away 50-99 % of a container, growth bursts, bulk overwrites) are checked DURING the burst, so that transient violations between two repairs are seen; a sixth of the cases runs at an arbitrary slab size."),
  "C06": ("exploration", "stateful PBT with a byte-accounting oracle: reported size vs. length of the written register",
          "For every reachable slab after every step: len(register) minus root extra data minus inlined extra data (+16 when a non-root data slab omits its sibling link) must equal ByteSize() (<= for compact composite maps); every array element's reported size must equal its encoded length; the decoded register must report the same size; Verify*Serialization run at commits."),
  "C07": ("exploration", "round-trip PBT: encode/decode/encode of every live slab and committed register, content equality through the public surface, header flags vs. content",
@@ -44,11 +44,11 @@ C = {
  "C17": ("exploration", "PBT over element streams and sources with the engine as validity oracle",
          "NewArrayFromBatchData over generated size programs (constant, alternating tiny/maximal, ramps, huge tail, exact-fill with underfull last leaf/index), NewMapFromBatchData from generated source maps (valid, unsorted, duplicate streams), byte slice<->array conversion around the single-slab threshold, and CanCopy/CopyNonRefSimple on every container of generated trees; results must equal their source, pass every structural oracle, keep working under further operations, and stay intact when the source is mutated or disposed of."),
  "C18": ("exploration", "metamorphic PBT (history with vs. without rejected requests) plus exhaustive failure injection into caller-supplied components during lookups",
-         "Generated rejected requests (out-of-range get/set/insert/remove incl. large values, invalid ranges, absent keys, collision-limit refusals, undefined identifiers, opening non-root slabs) are interleaved into a history: each must return its specific error with the documented category and leave pending-slab count and all slabs byte-identical, and the final registers must equal those of the history without them; for lookups and iteration on the final state every call of the comparator, hash-input provider and ledger read is failed in turn and must surface as an external error wrapping the component's error."),
+         "Generated rejected requests (out-of-range get/set/insert/remove incl. large values and indices beyond 2^32 whose low bits are a valid index, the extremes, invalid ranges through every range flavour, absent keys, collision-limit refusals, undefined identifiers, opening non-root slabs) are interleaved into a history: each must return its specific error with the documented category and leave pending-slab count and all slabs byte-identical, and the final registers must equal those of the history without them; for lookups and iteration on the final state every call of the comparator, hash-input provider and ledger read is failed in turn and must surface as an external error wrapping the component's error."),
  "C19": ("exploration", "structured mutation fuzzing (rapid) of valid registers of every slab kind and both format versions; coverage-guided native fuzzing in the thorough tier",
-         "Inputs are mutations (truncate, bit flip, byte set, splice, insert, duplicate, CBOR-head and length-field edits) of registers harvested from engine runs and of the repository's own v0/v1 test vectors; the target calls the three header predicates, DecodeSlab (with a permissive and a strict element decoder) and on success ByteSize / recursive ChildStorables / String; a panic, a hang (10 s watchdog) or allocation beyond 4 MiB + 2 KiB per input byte is a violation."),
+         "Inputs are mutations (truncate, bit flip, byte set, splice, insert, duplicate, CBOR-head and length-field edits, widened integers, coordinated count edits, length-consistent resizing of byte / text strings) of registers harvested from engine runs and of the repository's own v0/v1 test vectors; the target calls the three header predicates, DecodeSlab (with a permissive and a strict element decoder) and on success ByteSize / recursive ChildStorables / String; a panic, a hang (10 s watchdog) or allocation beyond 4 MiB + 2 KiB per input byte is a violation."),
  "C20": ("fault_enumeration", "fault enumeration over healthy storages from generated histories: every single-slab corruption of each kind at every slab",
-         "For each committed state the health check must pass and return exactly the roots and GetAllChildReferences must equal the harness's walk; then every non-root slab is deleted (register deleted, removed through the storage, absent from a BasicSlabStorage), referenced a second time and referenced from another owner, unreferenced slabs are added, and roots are nested under foreign owners: the check must reject each, and the broken reference must be reported exactly."),
+         "For each committed state the health check must pass and return exactly the roots and GetAllChildReferences must equal the harness's walk; then every non-root slab is deleted (register deleted, removed through the storage, absent from a BasicSlabStorage), referenced a second time and referenced from another owner, unreferenced slabs are added, and roots are nested under foreign owners (another account, or the temporary address at either end): the check must reject each, and the broken reference must be reported exactly (also when the slab was only removed through the storage and is still cached)."),
 }
 
 checks = []
